@@ -75,7 +75,9 @@ def gen_cases(ctx):
     for i in range(n):
         cls = STEREO[i % 2]
         k = (i // 2) % 10
-        if k < 3:
+        if k == 2 and (i // 20) % 2 == 0:
+            pg = gen.cis_trans_mixture_pg(rng, cls)
+        elif k < 3:
             pg = meso_pg(rng, cls)
         elif k == 3:
             pg = axis_pg(rng, cls)
